@@ -5,7 +5,7 @@
 -/
 import DymVerif.Lemmas.CoreCustody4
 import DymVerif.Lemmas.CoreLevWalk
-namespace DymVerif.Core
+namespace DymVerif.Core.XPunish
 
 theorem sendFromModule_rec {s s1 : St} {q q1 : Seq} {amt : Nat} {to : Addr}
     (e : sendFromModule s q amt to = .ok (s1, q1)) : q1 = { q with tokens := q.tokens - amt } := by
@@ -79,4 +79,4 @@ theorem punish_record {s s' : St} {a : Addr} {rw : Option Addr} (e : punish s a 
       · intro b hb
         rw [getSeq_setSeq_other (by rw [hq1a']; exact Ne.symm hb), getSeq_congr hseqs]
 
-end DymVerif.Core
+end DymVerif.Core.XPunish
